@@ -51,3 +51,32 @@ package sts
 //@ interface Received.GetRenamed pure stable
 //@ interface Received.GetSize pure stable
 //@ interface Received.GetHash pure stable
+
+// the queue cache and the file source (the concrete cache.JSON / store.Local have their own contracts)
+//@ interface FileCache.Done trusted
+//@   callback 1
+//@   modifies nothing
+//@ interface FileCache.Iterate trusted
+//@   callback 0
+//@   modifies nothing
+//@ interface FileCache.Get trusted
+//@   modifies nothing
+//@ interface FileCache.Add trusted
+//@   modifies nothing
+//@ interface FileCache.Remove trusted
+//@   modifies nothing
+//@ interface FileCache.Reset trusted
+//@   modifies nothing
+//@ interface FileCache.Persist trusted
+//@   modifies nothing
+//@ interface FileSource.Remove trusted
+//@   modifies nothing
+//@ interface FileSource.Sync trusted
+//@   modifies nothing
+//@ interface FileSource.IsNotExist trusted pure stable
+//@ interface FileSource.ShouldIgnore trusted
+//@   modifies nothing
+//@ interface FileSource.GetOpener trusted
+//@   modifies nothing
+//@ interface Cached.IsDone trusted
+//@   modifies nothing
